@@ -139,11 +139,24 @@ class World:
         it = Interp(prog, versions, crash_at)
         log = {'bf_paths': [], 'answers': 0, 'mask': self.mask_names}
 
+        cache_before = res.before.get(self.cache_rel)
+
         def root(b):
             api = RealApi(self.fb, sb, b, None, log, root=True)
             if hook is not None:
                 hook(api)
-            return it.root(api)
+            try:
+                return it.root(api)
+            finally:
+                # the cache file is replaced only after the root function succeeded
+                with faults.paused():
+                    try:
+                        with open(self.cache, 'rb') as f:
+                            now = f.read()
+                    except OSError:
+                        now = None
+                if now != (cache_before[1] if cache_before else None):
+                    log['cache_early'] = True
         if fault is not None:
             faults.install(self.fb)
             ff = fault.get('file')
@@ -172,6 +185,12 @@ class World:
             res.violations.append(viol('contract.' + c[0], {}, path=c[1], info=c[2:] or None))
         for sid in it.identity_errors:
             res.violations.append(viol('contract.exception_identity', {}, call=sid))
+        if log.get('cache_early'):
+            res.violations.append(viol('cache.replaced_before_root_returned', {}))
+        if res.real[0] == 'ok':
+            dup = cache_duplicates(res.after.get(self.cache_rel))
+            if dup:
+                res.violations.append(viol('cache.duplicate_record', {}, keys=dup[:3]))
         res.real_inv = it.invocations
         res.npoints = it.npoints
         res.bf_paths = log['bf_paths']
@@ -463,6 +482,32 @@ def canon_state(snapshot, cache_rel, R):
         if isinstance(cache_json, dict) and isinstance(cache_json.get('createdDirs'), list):
             cache_json['createdDirs'] = sorted(cache_json['createdDirs'])
     return hashlib.sha1(canon([tree, cache_json]).encode()).digest()[:10]
+
+
+def cache_duplicates(entry):
+    """Structural invariant of a committed cache file: every build_file path
+    and every subbuild key occurs once in the operation forest."""
+    if entry is None or entry[0] != 'f':
+        return ['<no cache file>']
+    try:
+        j = json.loads(gzip.decompress(entry[1]))
+    except Exception:
+        return ['<undecodable>']
+    seen, dup = set(), []
+
+    def walk(ops):
+        for o in ops:
+            t = o.get('type')
+            if t in ('build_file', 'subbuild'):
+                if not o.get('setupFailed'):
+                    k = (t, o.get('filename'), o.get('funcName') if t == 'subbuild' else None,
+                         canon([o.get('args'), o.get('kwargs')]) if t == 'subbuild' else None)
+                    if k in seen:
+                        dup.append(str(k))
+                    seen.add(k)
+                walk(o.get('suboperations', []))
+    walk(j.get('rootOperations', []))
+    return dup
 
 
 def _collect_times(j, out):
